@@ -42,7 +42,7 @@ def letters_for_cfg(cfg):
     if cfg.get("alphabet") == "scopes":
         # scope bookkeeping needs longer histories (re-entering a name / an index that is already open)
         return [("cluster", "a"), ("cluster", "k"), ("index", 0), ("index", 1), ("leave",), ("add", "r", 1, None),
-                ("add", "s", dw + 1, None)]
+                ("add", "s", dw + 1, None), ("raise_out",)]
     L = []
     widths = [0, 1, dw, dw + 1, 3 * dw]
     for name in ("a", "b"):
@@ -52,12 +52,14 @@ def letters_for_cfg(cfg):
         for off in (0, ratio, 2 * ratio, 3 * ratio, 5 * ratio):
             L.append(("add", "c", w, off))
     L.append(("add", "d", 3 * dw, 2 * ratio))
+    # three bus words (rounded up to four) whose raw size just fits below the top of the address space
+    L.append(("add", "t", 3 * dw, ((1 << cfg["aw"]) - 3) * ratio))
     if ratio > 1:
         L.append(("add", "e", 1, 1))                 # not a multiple of data_width // granularity
     L += [("add", "e", 1, -ratio), ("add", "", 1, None), ("add", 5, 1, None), ("add_notreg", "x"), ("add_same", "y"),
           ("add", "e", 1, "0")]
     L += [("cluster", "a"), ("cluster", "k"), ("cluster", ""), ("index", 0), ("index", 1), ("index", -1), ("leave",),
-          ("freeze",), ("as_map",)]
+          ("raise_out",), ("freeze",), ("as_map",)]
     return L
 
 
@@ -138,6 +140,16 @@ def execute_factory(cfg):
                 elif kind == "leave":
                     if cms:
                         cms.pop().__exit__(None, None, None)
+                        scopes.pop()
+                elif kind == "raise_out":
+                    # an exception raised inside the innermost scope propagates out of every `with` block
+                    # (what a refused add inside nested scopes does in user code): all scopes are left
+                    exc = ValueError("raised inside the scopes")
+                    while cms:
+                        try:
+                            cms.pop().__exit__(ValueError, exc, None)
+                        except ValueError:
+                            pass
                         scopes.pop()
                 elif kind == "freeze":
                     b.freeze()
